@@ -12,7 +12,7 @@ use std::collections::HashSet;
 use std::sync::Arc;
 use std::time::Duration;
 
-pub const RULE: &str = "K concurrent calls (threads for Client, tasks for AsyncClient and WebSocketClient) on clones of one client, each to its own path /c/<k>, against a scripted peer whose script is a generated valid interleaving of {receive next request, answer the j-th received request} so replies overtake later requests, with injected unknown-id responses, duplicated responses and (WebSocket) notify frames reusing an in-flight id; all K! reply orders for K<=tier bound (exhaustive) plus random scripts up to K=64, and batch_json; oracle: call k returns the body carrying k, batch results are positionally aligned, every injected notify reaches the subscriber exactly once and no caller, all ids on the connection are pairwise distinct; non-trivial = K>=2 with reply order != request order, or at least one injected frame; distinct = case hash";
+pub const RULE: &str = "K concurrent calls (threads for Client, tasks for AsyncClient and WebSocketClient) on clones of one client, each to its own path /c/<k>, against a scripted peer whose script is a generated valid interleaving of {receive next request, answer the j-th received request} so replies overtake later requests, with injected unknown-id responses, duplicated responses and (WebSocket) notify frames reusing an in-flight id; all K! reply orders for K<=tier bound (exhaustive) plus random scripts up to K=64, and batch_json; oracle: call k returns the body carrying k, batch results are positionally aligned, every injected notify reaches the subscriber exactly once and no caller, all ids on the connection are pairwise distinct; (failed-body) a call whose body fails to serialize after it took its id, with other calls in flight before and after it: ids stay distinct and every other call gets its own response; non-trivial = K>=2 with reply order != request order, or at least one injected frame; distinct = case hash";
 
 #[derive(Debug, Clone, Copy, Serialize, Deserialize, Hash, PartialEq, Eq)]
 pub enum ClientKind {
@@ -620,6 +620,201 @@ fn forward_case() -> BoxedStrategy<Forward> {
         .boxed()
 }
 
+// -------------------------------------------- a request whose body fails to serialize
+
+/// Serializing blocks until the gate opens and then fails.
+struct GateBody(Arc<(std::sync::Mutex<(bool, bool)>, std::sync::Condvar)>); // (entered, released)
+
+impl Serialize for GateBody {
+    fn serialize<S: serde::Serializer>(&self, _s: S) -> Result<S::Ok, S::Error> {
+        let (m, cv) = &*self.0;
+        let mut g = m.lock().unwrap();
+        g.0 = true;
+        cv.notify_all();
+        let deadline = std::time::Instant::now() + Duration::from_secs(10);
+        while !g.1 {
+            let now = std::time::Instant::now();
+            if now >= deadline {
+                break;
+            }
+            g = cv.wait_timeout(g, deadline - now).unwrap().0;
+        }
+        Err(serde::ser::Error::custom("injected serialization failure"))
+    }
+}
+
+/// Call A takes its request id and then fails while building its body; meanwhile call
+/// B was sent and is in flight; then call C is made. B and C are both in flight with
+/// their own, distinct ids and each gets its own response, whatever A's failure did
+/// to the id allocation.
+#[derive(Debug, Clone, Serialize, Deserialize, Hash, PartialEq, Eq)]
+pub struct FailedBody {
+    pub client: ClientKind,
+    /// how many calls are in flight when A fails
+    pub inflight: u8,
+    /// how many calls follow
+    pub after: u8,
+}
+
+pub fn check_failed_body(c: &FailedBody) -> CheckResult {
+    enum AnyIo {
+        T(TcpIo),
+        W(WsIo<tokio::net::TcpStream>),
+    }
+    impl AnyIo {
+        async fn recv(&mut self) -> std::io::Result<Option<Frame>> {
+            match self {
+                AnyIo::T(io) => io.recv().await,
+                AnyIo::W(io) => io.recv().await,
+            }
+        }
+        async fn send(&mut self, b: &[u8]) -> std::io::Result<()> {
+            match self {
+                AnyIo::T(io) => io.send(b).await,
+                AnyIo::W(io) => io.send(b).await,
+            }
+        }
+    }
+    enum Any {
+        B(Client),
+        A(AsyncClient),
+        W(WebSocketClient),
+    }
+    let gate = Arc::new((std::sync::Mutex::new((false, false)), std::sync::Condvar::new()));
+    let wait_entered = {
+        let gate = gate.clone();
+        move || {
+            let (m, cv) = &*gate;
+            let mut g = m.lock().unwrap();
+            let deadline = std::time::Instant::now() + call_timeout();
+            while !g.0 {
+                let now = std::time::Instant::now();
+                if now >= deadline {
+                    return false;
+                }
+                g = cv.wait_timeout(g, deadline - now).unwrap().0;
+            }
+            true
+        }
+    };
+    let nb = c.inflight.max(1) as usize;
+    let nc = c.after.max(1) as usize;
+    block_on(async {
+        let (listener, addr) = listen().await.map_err(|e| Fail::new("harness-listen", e.to_string()))?;
+        let (client, mut io) = match c.client {
+            ClientKind::Blocking => {
+                let a = addr.to_string();
+                let cl = tokio::task::spawn_blocking(move || Client::connect(a)).await.unwrap().map_err(|e| Fail::new("harness-connect", e.to_string()))?;
+                (Any::B(cl), AnyIo::T(accept_tcp(&listener).await.map_err(|e| Fail::new("harness-accept", e.to_string()))?))
+            }
+            ClientKind::Async => {
+                let cl = AsyncClient::connect(addr).await.map_err(|e| Fail::new("harness-connect", e.to_string()))?;
+                (Any::A(cl), AnyIo::T(accept_tcp(&listener).await.map_err(|e| Fail::new("harness-accept", e.to_string()))?))
+            }
+            ClientKind::Ws => {
+                let url = format!("ws://{addr}");
+                let (cl, io) = tokio::join!(WebSocketClient::connect(&url), accept_ws(&listener));
+                let cl = cl.map_err(|e| Fail::new("harness-connect", e.to_string()))?;
+                (Any::W(cl), AnyIo::W(io.map_err(|e| Fail::new("harness-accept", e.to_string()))?))
+            }
+        };
+        let spawn_ok = |k: usize| -> tokio::task::JoinHandle<Result<Value, String>> {
+            let path = format!("/f/{k}");
+            let body = json!({"k": k});
+            match &client {
+                Any::B(cl) => {
+                    let cl = cl.clone();
+                    tokio::task::spawn_blocking(move || cl.call_json_with_timeout(path, &body, call_timeout()).map_err(|e| e.to_string()))
+                }
+                Any::A(cl) => {
+                    let cl = cl.clone();
+                    tokio::spawn(async move { cl.call_json_with_timeout(path, &body, call_timeout()).await.map_err(|e| e.to_string()) })
+                }
+                Any::W(cl) => {
+                    let cl = cl.clone();
+                    tokio::spawn(async move { cl.call_json_with_timeout(path, &body, call_timeout()).await.map_err(|e| e.to_string()) })
+                }
+            }
+        };
+        // A: takes its id, then blocks inside its body's Serialize impl (on a blocking
+        // thread, so no runtime worker is held)
+        let a_body = GateBody(gate.clone());
+        let a_call: tokio::task::JoinHandle<Result<Value, String>> = match &client {
+            Any::B(cl) => {
+                let cl = cl.clone();
+                tokio::task::spawn_blocking(move || cl.call_json_with_timeout("/f/a", &a_body, call_timeout()).map_err(|e| e.to_string()))
+            }
+            Any::A(cl) => {
+                let cl = cl.clone();
+                let h = tokio::runtime::Handle::current();
+                tokio::task::spawn_blocking(move || h.block_on(async move { cl.call_json_with_timeout("/f/a", &a_body, call_timeout()).await.map_err(|e| e.to_string()) }))
+            }
+            Any::W(cl) => {
+                let cl = cl.clone();
+                let h = tokio::runtime::Handle::current();
+                tokio::task::spawn_blocking(move || h.block_on(async move { cl.call_json_with_timeout("/f/a", &a_body, call_timeout()).await.map_err(|e| e.to_string()) }))
+            }
+        };
+        let entered = tokio::task::spawn_blocking(wait_entered).await.unwrap();
+        ensure!(entered, "harness-gate", "the failing call never reached its body's Serialize impl");
+        // B...: sent and in flight
+        let mut calls = Vec::new();
+        let mut frames: Vec<Frame> = Vec::new();
+        for k in 0..nb {
+            calls.push((k, spawn_ok(k)));
+            match tokio::time::timeout(call_timeout(), io.recv()).await {
+                Ok(Ok(Some(f))) => frames.push(f),
+                _ => return Err(Fail::new("peer-script", "an in-flight request did not reach the peer")),
+            }
+        }
+        // A fails now
+        {
+            let (m, cv) = &*gate;
+            m.lock().unwrap().1 = true;
+            cv.notify_all();
+        }
+        let a_res = tokio::time::timeout(call_timeout(), a_call).await;
+        ensure!(matches!(a_res, Ok(Ok(Err(_)))), "failed-body-call-outcome", "the call whose body cannot be serialized returned {a_res:?}");
+        // C...: made after the failure, while B... are still in flight
+        for k in nb..nb + nc {
+            calls.push((k, spawn_ok(k)));
+            match tokio::time::timeout(call_timeout(), io.recv()).await {
+                Ok(Ok(Some(f))) => frames.push(f),
+                _ => {
+                    let (_, h) = calls.pop().unwrap();
+                    let r = tokio::time::timeout(Duration::from_millis(500), h).await;
+                    return Err(Fail::new(
+                        "call-failed",
+                        format!("{:?}: call {k}, made after another call's body failed to serialize, never reached the peer: {r:?}", c.client),
+                    ));
+                }
+            }
+        }
+        let ids: Vec<u64> = frames.iter().map(|f| f.header.id).collect();
+        let distinct: HashSet<u64> = ids.iter().copied().collect();
+        ensure!(
+            distinct.len() == ids.len(),
+            "duplicate-id",
+            "{:?}: requests in flight at the same time carry ids {ids:?} (a call whose body failed to serialize was made in between)",
+            c.client
+        );
+        // answer in reverse order; everyone gets their own
+        for f in frames.iter().rev() {
+            let k: usize = f.path().strip_prefix("/f/").and_then(|s| s.parse().ok()).unwrap_or(usize::MAX);
+            let body = serde_json::to_vec(&json!({"k": k})).unwrap();
+            io.send(&response_frame(f, 0, 2, &body)).await.map_err(|e| Fail::new("peer-script", e.to_string()))?;
+        }
+        for (k, h) in calls {
+            match tokio::time::timeout(call_timeout(), h).await {
+                Ok(Ok(Ok(v))) => ensure!(v.get("k").and_then(Value::as_u64) == Some(k as u64), "wrong-response", "call {k} received {v}"),
+                Ok(Ok(Err(e))) => return Err(Fail::new("call-failed", format!("{:?}: call {k} failed although the peer answered it: {e}", c.client))),
+                _ => return Err(Fail::new("call-failed", format!("call {k} did not return"))),
+            }
+        }
+        Ok(CaseInfo::new(true).class(format!("{:?}", c.client)))
+    })
+}
+
 // ------------------------------------------- response overtakes the returning writer
 
 /// The caller is held (verif-hooks probe `client.written`) right after its request
@@ -787,6 +982,11 @@ fn overtake_case() -> BoxedStrategy<Overtake> {
 }
 
 pub fn run(ctx: &Ctx, rep: &Report) {
+    let fb: Vec<FailedBody> = [ClientKind::Blocking, ClientKind::Async, ClientKind::Ws]
+        .into_iter()
+        .flat_map(|client| [(1u8, 1u8), (1, 3), (3, 2)].into_iter().map(move |(inflight, after)| FailedBody { client, inflight, after }))
+        .collect();
+    run_enum(ctx, rep, "failed-body", &fb, true, &check_failed_body);
     // one case at a time: the probe handler is process-wide
     run_prop_threads(ctx, rep, "overtake", ctx.tier.pick(150, 6_000), 1, &|| overtake_case(), &check_overtake);
     run_prop(ctx, rep, "forward", ctx.tier.pick(600, 40_000), &|| forward_case(), &check_forward);
@@ -800,6 +1000,7 @@ pub fn replay(sub: &str, case: &serde_json::Value) -> Result<(), Fail> {
         "permutations" | "random" => replay_case::<Case>(case, &check),
         "forward" => replay_case::<Forward>(case, &check_forward),
         "overtake" => replay_case::<Overtake>(case, &check_overtake),
+        "failed-body" => replay_case::<FailedBody>(case, &check_failed_body),
         _ => Err(Fail::new("replay-unknown-sub", sub.to_string())),
     }
 }
